@@ -7,8 +7,10 @@
 -/
 namespace Litex.Clock
 
+/-- Non-negative rational `num/den` (frequencies, margins, dividers).  `Nat` fields keep the compiled model on
+    machine words for everything below 2^63. -/
 structure Q where
-  num : Int
+  num : Nat
   den : Nat
 deriving Repr, DecidableEq, Inhabited
 
@@ -18,35 +20,61 @@ namespace Q
 @[inline] def mul (a b : Q) : Q := ⟨a.num * b.num, a.den * b.den⟩
 @[inline] def mulNat (a : Q) (n : Nat) : Q := ⟨a.num * n, a.den⟩
 @[inline] def divNat (a : Q) (n : Nat) : Q := ⟨a.num, a.den * n⟩
-/-- `a / b` for `b > 0` (the models only divide by positive dividers / frequencies). -/
-@[inline] def div (a b : Q) : Q := ⟨a.num * b.den, a.den * b.num.toNat⟩
+/-- `a / b` (the models only divide by positive dividers / frequencies). -/
+@[inline] def div (a b : Q) : Q := ⟨a.num * b.den, a.den * b.num⟩
 @[inline] def add (a b : Q) : Q := ⟨a.num * b.den + b.num * a.den, a.den * b.den⟩
-@[inline] def sub (a b : Q) : Q := ⟨a.num * b.den - b.num * a.den, a.den * b.den⟩
-@[inline] def abs (a : Q) : Q := ⟨a.num.natAbs, a.den⟩
+/-- `max(a - b, 0)`. -/
+@[inline] def subT (a b : Q) : Q := ⟨a.num * b.den - b.num * a.den, a.den * b.den⟩
+/-- `|a - b|`. -/
+@[inline] def absDiff (a b : Q) : Q :=
+  let x := a.num * b.den
+  let y := b.num * a.den
+  ⟨if x ≤ y then y - x else x - y, a.den * b.den⟩
 @[inline] def le (a b : Q) : Bool := decide (a.num * b.den ≤ b.num * a.den)
 @[inline] def lt (a b : Q) : Bool := decide (a.num * b.den < b.num * a.den)
 @[inline] def beq (a b : Q) : Bool := decide (a.num * b.den = b.num * a.den)
 def one : Q := ⟨1, 1⟩
 def zero : Q := ⟨0, 1⟩
 
-/-- `⌊a⌋` for `den > 0` (Python `//` and `math.floor`). -/
-@[inline] def floor (a : Q) : Int := a.num / (a.den : Int)      -- Int `/` is floor division for a positive divisor
-/-- `⌈a⌉` for `den > 0` (`math.ceil`). -/
-@[inline] def ceil (a : Q) : Int := -((-a.num) / (a.den : Int))
-/-- Python `int(x)`: truncation toward zero. -/
-@[inline] def trunc (a : Q) : Int := Int.tdiv a.num (a.den : Int)
-/-- Python `round(x)`: nearest integer, ties to even. -/
-def round (a : Q) : Int :=
-  let f := a.floor
-  let r2 : Int := 2 * (a.num - f * a.den)         -- 2 * fractional part * den, in [0, 2*den)
-  if r2 < a.den then f else if r2 > a.den then f + 1 else if f % 2 = 0 then f else f + 1
+/-- `⌊a⌋` (Python `//`, `math.floor`, `int()` of a non-negative value). -/
+@[inline] def floor (a : Q) : Nat := a.num / a.den
+/-- `⌈a⌉` (`math.ceil`). -/
+@[inline] def ceil (a : Q) : Nat := (a.num + a.den - 1) / a.den
 
 /-- Reduced representation (for printing). -/
 def norm (a : Q) : Q :=
-  let g := Nat.gcd a.num.natAbs a.den
-  if g = 0 then a else ⟨a.num / (g : Int), a.den / g⟩
+  let g := Nat.gcd a.num a.den
+  if g = 0 then a else ⟨a.num / g, a.den / g⟩
 
 end Q
+
+/-- Signed rational (phases in degrees). -/
+structure SQ where
+  num : Int
+  den : Nat
+deriving Repr, DecidableEq, Inhabited
+
+namespace SQ
+def zero : SQ := ⟨0, 1⟩
+@[inline] def mulNat (a : SQ) (n : Nat) : SQ := ⟨a.num * n, a.den⟩
+@[inline] def divNat (a : SQ) (n : Nat) : SQ := ⟨a.num, a.den * n⟩
+@[inline] def addNat (a : SQ) (n : Nat) : SQ := ⟨a.num + (n : Int) * a.den, a.den⟩
+@[inline] def beq (a b : SQ) : Bool := decide (a.num * b.den = b.num * a.den)
+/-- `⌊a⌋` for `den > 0` (Int `/` is floor division for a positive divisor). -/
+@[inline] def floor (a : SQ) : Int := a.num / (a.den : Int)
+/-- Python `int(x)`: truncation toward zero. -/
+@[inline] def trunc (a : SQ) : Int := Int.tdiv a.num (a.den : Int)
+/-- Python `round(x)`: nearest integer, ties to even. -/
+def round (a : SQ) : Int :=
+  let f := a.floor
+  let r2 : Int := 2 * (a.num - f * a.den)         -- 2 * fractional part * den, in [0, 2*den)
+  if r2 < a.den then f else if r2 > a.den then f + 1 else if f % 2 = 0 then f else f + 1
+def norm (a : SQ) : SQ :=
+  let g := Nat.gcd a.num.natAbs a.den
+  if g = 0 then a else ⟨a.num / (g : Int), a.den / g⟩
+end SQ
+
+@[inline] def Q.toSQ (a : Q) : SQ := ⟨a.num, a.den⟩
 
 /-- Python `range(lo, hi)`. -/
 @[inline] def pyRange (lo hi : Nat) : List Nat := List.range' lo (hi - lo)
@@ -64,28 +92,28 @@ deriving Repr, DecidableEq, Inhabited
 def DivRange.count (r : DivRange) : Nat := (r.b - r.a + r.s - 1) / r.s
 
 def DivRange.toList (r : DivRange) : List Q :=
-  (List.range r.count).map fun i => ⟨((r.a + i * r.s : Nat) : Int), r.k⟩
+  (List.range r.count).map fun i => ⟨r.a + i * r.s, r.k⟩
 
 /-- One requested output: frequency, phase (degrees), relative margin. -/
 structure Out where
   freq   : Q
-  phase  : Q
+  phase  : SQ
   margin : Q
 deriving Repr, DecidableEq, Inhabited
 
 /-- The margin test of every `compute_config`:  `abs(clk_freq - f) <= f*m`. -/
-@[inline] def within (clk : Q) (o : Out) : Bool := ((clk.sub o.freq).abs).le (o.freq.mul o.margin)
+@[inline] def within (clk : Q) (o : Out) : Bool := (clk.absDiff o.freq).le (o.freq.mul o.margin)
 
 /-- `math.isclose(clk_freq, f, rel_tol=m)` (abs_tol = 0): `|a-b| <= |m*b|  or  |a-b| <= |m*a|`. -/
 @[inline] def isclose (clk : Q) (o : Out) : Bool :=
-  let d := (clk.sub o.freq).abs
-  d.le (o.margin.mul o.freq).abs || d.le (o.margin.mul clk).abs
+  let d := clk.absDiff o.freq
+  d.le (o.margin.mul o.freq) || d.le (o.margin.mul clk)
 
 /-- `lo <= x <= hi`. -/
 @[inline] def inRange (lo hi x : Q) : Bool := lo.le x && x.le hi
 
 /-- `x >= lo*(1 + vm) and x <= hi*(1 - vm)` (the VCO window with `vco_margin`). -/
 @[inline] def inRangeM (lo hi vm x : Q) : Bool :=
-  (lo.mul (Q.one.add vm)).le x && x.le (hi.mul (Q.one.sub vm))
+  (lo.mul (Q.one.add vm)).le x && x.le (hi.mul (Q.one.subT vm))
 
 end Litex.Clock
